@@ -1,6 +1,7 @@
 import GdcVerif.Driver.Util
 import GdcVerif.Model.JpegContainer
 import GdcVerif.Spec.StrictJpeg
+import GdcVerif.Spec.StrictJ2kTiles
 /-! Driver ops of check C16 (container level). See `go/cmd/vharness/c16.go` for the producing side. -/
 namespace Drv.JpegContainer
 open Drv JpegC
@@ -105,6 +106,31 @@ def step? : List String → Option String
         else ((groups (levels + 1).toNat nt bs).mapIdx fun i g => htTileParts i levels [] g).flatten
       out (j2kTail (ht ≠ 0) parts)
     | _, _ => "bad-op"
+  | ["c16-guard-base", w, h, c] =>
+    -- outcome class of the argument guards only (dummy tables: they are not reached when a guard fires)
+    some <| match ints? [w, h], c.toNat? with
+    | some [w, h], some c =>
+      let t : HuffTable := { bits := 1 :: List.replicate 15 0, values := [0] }
+      let q : List Int := List.replicate 64 1
+      match baselineHeader w h c { q0 := q, q1 := q, dc0 := t, ac0 := t, dc1 := t, ac1 := t } with
+      | .ok _ => "ok"
+      | .err => "err"
+      | .panic => "panic"
+    | _, _ => "bad-op"
+  | ["c16-guard-ext12", w, h] =>
+    some <| match ints? [w, h] with
+    | some [w, h] =>
+      let t : HuffTable := { bits := 1 :: List.replicate 15 0, values := [0] }
+      match ext12Header w h (List.replicate 64 1) t t with
+      | .ok _ => "ok"
+      | .err => "err"
+      | .panic => "panic"
+    | _ => "bad-op"
+  | "c16-j2k-pieces" :: pieces =>
+    -- the body abstraction: body = concatenation of the pieces; the spec predicate `BodyOk` evaluated on every piece
+    let ps := pieces.map hexToBytes
+    let ok := ps.all fun p => decide (StrictJ2k.BodyOk p)
+    some s!"ok {bytesToHex ps.flatten} {if ok then 1 else 0}"
   | ["c16-strict", hx] =>
     some <| match StrictJpeg.parse (hexToBytes hx) with
     | some r => strictLine r
